@@ -2,6 +2,8 @@ package props
 
 import (
 	"nsa/rules"
+
+	"golang.org/x/tools/go/ssa"
 )
 
 func obRunSwitches(c *rules.Ctx, id string) {
@@ -115,7 +117,10 @@ func init() {
 			r := c.Roles(ob0)
 			obApplyPostings(c, "C09.1", r)
 			ob2 := c.R.Ob("C09.2", "ctrl/reset", "pending lists are reset per statement before any push and have no other writer; the current asset is assigned before use", 4)
-			disp := c.Fn(ob2, relInterp, "(*programState).runStatement")
+			var disp, fetch *ssa.Function
+			if ir := c.IRoles(ob2); ir != nil {
+				disp, fetch = ir.Dispatcher, ir.Fetch
+			}
 			c.ResetBeforePush(ob2, r, disp)
 			c.AssetAssignedBeforeUse(ob2, r)
 			ob3 := c.R.Ob("C09.3", "effects/W3", "metadata maps are created once with a fresh map and never replaced", 2)
@@ -124,7 +129,6 @@ func init() {
 			ob4 := c.R.Ob("C09.4", "ctrl/fetch-once", "balances are fetched before the first statement and never while statements run", 2)
 			c.NoFetchFromRunners(ob4, disp, c.P.Named(relInterp, "Store"), "GetBalances")
 			run := c.Fn(ob4, relInterp, "RunProgram")
-			fetch := c.Fn(ob4, relInterp, "(*programState).runBalancesQuery")
 			c.CallOrder(ob4, "order:RunProgram:statements-after-fetch", run, sameFn(fetch), sameFn(disp), "statements run only after the balances were fetched")
 			obCacheMergeOnly(c, "C09.4b")
 			obSaveMonotone(c, "C09.5", r)
